@@ -7,6 +7,6 @@ from progprop import replay
 def run(tier):
     import os
     seed = int(os.environ.get('VERIF_SEED', '0') or 0)
-    return progprop.run('C10', tier, tmpl.branches() + tmpl.random_tree_programs(seed + 303, 0 if tier == 'quick' else 300), 'c10',
+    return progprop.run('C10', tier, tmpl.branches() + tmpl.random_tree_programs(seed + 303, 0 if tier == 'quick' else 100), 'c10',
                         'conde { A, B } under a shared constraint prefix, executed symbolically from MIR: the answers must be the multiset union of the '
                         'reference answers of A alone and of B alone from the same state (the reference evaluates each branch on its own copy of the state).')
